@@ -271,6 +271,7 @@ func buildSvcFan(tier string, prop string) sim.Scenario {
 
 		// audit: the stream's consumer count against what the clients did (a leaver may legitimately linger where
 		// the server can only notice on its next write; a multicast group is one consumer)
+		var replacedAt time.Time // set once the stream has been replaced: later joiners attach to its successor
 		audit := func(when string) bool {
 			min, max := 0, 0
 			mcMin, mcMax := 0, 0
@@ -278,11 +279,14 @@ func buildSvcFan(tier string, prop string) sim.Scenario {
 			for _, c := range cons {
 				definite, maybe := false, false
 				switch {
+				case c.played && !replacedAt.IsZero() && !c.playedAt.Before(replacedAt): // joined the successor, or either stream around the instant of the replacement
+					maybe = c.playedAt.Sub(replacedAt) <= 5*time.Millisecond && !c.left && !c.eof
 				case c.played && c.eof: // already closed by the server
 				case c.played && !c.left:
 					definite = true
 				case c.played && c.left:
-					maybe = c.kind == "flv" || c.kind == "wsflv" || c.dataOnly || now.Sub(c.leftAt) < time.Millisecond
+					// (a WSP session whose data channel broke is gone once the server has closed its control channel)
+					maybe = c.kind == "flv" || c.kind == "wsflv" || (c.dataOnly && !c.ctlClosed) || now.Sub(c.leftAt) < time.Millisecond
 				case !c.played && !c.done:
 					maybe = true
 				}
@@ -303,7 +307,30 @@ func buildSvcFan(tier string, prop string) sim.Scenario {
 			}
 			min, max = min+mcMin, max+mcMax
 			if n := oldStream.ConsumerCount(); n < min || n > max {
-				w.Fail("C03/count-mismatch", "%s the stream counts %d consumer(s); by what the clients did it must be between %d and %d (clients that left and whose departure the server has seen are not attached, every client still playing is)", when, n, min, max)
+				desc := ""
+				for _, c := range cons {
+					desc += fmt.Sprintf(" %s:%s", c.name, c.kind)
+					if c.played {
+						desc += "+played"
+					}
+					if c.left {
+						desc += "+left"
+					}
+					if c.stalled {
+						desc += "+stalled"
+					}
+					if c.eof {
+						desc += "+closed"
+					}
+					if c.dataOnly {
+						desc += "+dataonly"
+					}
+				}
+				desc += " | attached:"
+				for _, ci := range oldStream.Info(true).Consumptions {
+					desc += fmt.Sprintf(" [%s %s]", ci.PacketType, ci.Extra)
+				}
+				w.Fail("C03/count-mismatch", "%s the stream counts %d consumer(s); by what the clients did it must be between %d and %d (clients that left and whose departure the server has seen are not attached, every client still playing is):%s", when, n, min, max, desc)
 				return false
 			}
 			w.Probe("fan.count-audited")
@@ -347,6 +374,7 @@ func buildSvcFan(tier string, prop string) sim.Scenario {
 		}
 		sample()
 		if endCause == "replace" {
+			replacedAt = endAt
 			// one client of the replaced stream leaves while the old publisher is still there: its consumer must go from the OLD stream
 			w.Sleep(3 * time.Second)
 			for _, c := range cons {
@@ -723,7 +751,9 @@ func fanConsume(w *sim.World, sw *svcWorld, c *fanConsumer, base string, pubN fu
 				c.ports["5002"], c.ports["5003"] = 2, 3
 			}
 		}
+		var firstPlay time.Time
 		if c.pauseFirst { // PLAY, PAUSE, PLAY: the session must end up attached exactly once
+			firstPlay = time.Now() // attached from here on, to whatever stream was registered now
 			w.Probe("fan.wsp-pause-resume")
 			w.Sleep(time.Duration(5+w.Tape.Choose(40)) * time.Millisecond)
 			if m, err := c.cl.do("PAUSE", base, nil, ""); err != nil || m.Status != 200 {
@@ -748,6 +778,9 @@ func fanConsume(w *sim.World, sw *svcWorld, c *fanConsumer, base string, pubN fu
 			c.dgStart = groupLen(c.ip)
 		}
 		c.played, c.playedAt = true, time.Now()
+		if !firstPlay.IsZero() {
+			c.playedAt = firstPlay
+		}
 		if c.stallAfter > 0 {
 			c.cl.drain(c.stallAfter)
 			fanStall(w, c, c.cl.c)
